@@ -257,6 +257,46 @@ def depth_docs(family, place, n):
     return x.replace(xmlgen.esc(tgt), xmlgen.esc(new), 1), a.replace(tgt, new, 1)
 
 
+def run_entry_points(arg):
+    """the same XML text through the three XML entry points (buffer, file, file descriptor): the way the text reaches the reader is
+    no more observable than its format"""
+    i, n = arg
+    part = engine.Part()
+    w = engine.worker("fast")
+    prefs = [pf for k, pf in enumerate(choice.prefixes(gen, 1)) if k % n == i]
+    docs, keys = [], []
+    for pf in prefs:
+        m, r = choice.run(gen, pf)
+        x = MG.render_xml(m)
+        devs = choice.deviations(r.choices, r.tags)
+        docs.append(x)
+        keys.append(MG_key(devs))
+        for f in FAULTS[1:5]:
+            if xmlgen.esc(f[0]) in x and m.encoding == "entities":
+                docs.append(x.replace(xmlgen.esc(f[0]), xmlgen.esc(f[1]), 1))
+                keys.append(MG_key(devs) + ":fault")
+    res = {via: xmlgen.run_docs(w, docs, want=["dump", "nosymtypes"], batch=50, extra={"via": via}) for via in ("buffer", "fd", "file")}
+    for k, (doc, key) in enumerate(zip(docs, keys)):
+        part.count()
+        rp = {"op": "xml", "buf": doc, "want": ["dump", "nosymtypes"], "via": "fd"}
+        rs = {via: res[via][k] for via in res}
+        if any(engine.check_crash(part, PID, rs[via], "%s via %s" % (key, via), dict(rp, via=via)) for via in rs):
+            continue
+        part.nontrivial_case("entry-points:" + key + ":" + str(k))
+        sig = {via: (rs[via].get("ret"), rs[via].get("exc"), xmlgen.msgs(rs[via]), rs[via].get("methods"), json.dumps(rs[via].get("dump"), sort_keys=True))
+               for via in rs}
+        other = [via for via in ("fd", "file") if sig[via] != sig["buffer"]]
+        if other:
+            a, b = sig["buffer"], sig[other[0]]
+            what = "return value" if a[0] != b[0] else "exception" if a[1] != b[1] else "diagnostics" if a[2] != b[2] else "methods" if a[3] != b[3] else "document"
+            part.outcome("entry-points-differ")
+            part.violation("entry-point-differs:%s:%s" % (other[0], what), "the same text parsed by parse_XML_buffer and parse_XML_%s differs in the %s (%s)" %
+                           (other[0], what, key), dict(rp, via=other[0]))
+        else:
+            part.outcome("entry-points-agree/" + ("accepted" if xmlgen.accepted(rs["buffer"]) else "rejected"))
+    return part.result()
+
+
 def run_depth(arg):
     family, place = arg
     part = engine.Part()
@@ -324,6 +364,8 @@ def main():
     for res in engine.pmap(run_shard, shards):
         rep.merge(res)
     for res in engine.pmap(run_extras, [(i, n) for i in range(n)]):
+        rep.merge(res)
+    for res in engine.pmap(run_entry_points, [(i, engine.ncpu()) for i in range(engine.ncpu())]):
         rep.merge(res)
     for res in engine.pmap(run_depth, [(f, pl) for f in DEPTH_FAMILIES for pl in DEPTH_PLACES]):
         rep.merge(res)
